@@ -222,7 +222,7 @@ def cl_run_digest():
     import nifty.cl as ift
     from vf import models_cl
     models_cl.quiet()
-    lh = models_cl.two_key_model()
+    lh = models_cl.four_key_model()      # no initial_position: the driver random-initialises all four keys
     mini, ic = models_cl.minimizers()
     with ift.random.Context(7):
         sl, mean = ift.optimize_kl(lh, 2, 2, mini, ic, return_final_position=True, comm=None,
@@ -316,8 +316,9 @@ def run(case):
                   detail=dict(prefix=case["prefix"], states=r["states"], transitions=r["transitions"]))
     if case["kind"] == "xproc":
         call = "cl_run_digest()" if case["driver"] == "cl" else "re_run()"
-        a, b, c = _subprocs(call, [None, None, 12345])
-        if not (a == b == c):
+        # fixed, distinct hash seeds (deterministic coverage of hash-order dependent code) plus two random ones
+        res = _subprocs(call, [0, 1, 2, 3, 4, 5, None, None] if case["driver"] == "cl" else [0, 1, None])
+        if any(r != res[0] for r in res[1:]):
             return bad("%s VI run is not bit-identical across fresh processes" % case["driver"],
                        finding_key="xproc|%s" % case["driver"])
         return ok(nontrivial=True, outcome="xproc-identical-" + case["driver"])
